@@ -4,7 +4,7 @@
    real constant on every run (Gen/C10.v) and enters through the side conditions of Proofs/SideC10.v.
    The transport (a *net.TCPConn) is the chunk oracle of Base/Chunks.v: every statement is `forall c` (chunking).
    Nothing is bounded: frame lists, write scripts, read-buffer size sequences, byte strings are arbitrary. *)
-From TX Require Import Model.CrossFrame Proofs.CrossFrame Model.Forward Proofs.Forward Proofs.SideC10 Gen.C10.
+From TX Require Import Model.CrossFrame Proofs.CrossFrame Model.CrossTracker Proofs.CrossTracker Model.Forward Proofs.Forward Proofs.SideC10 Gen.C10.
 Close Scope N_scope.
 
 (* (1) every list of frames the writers accept decodes to itself under every chunking, then a clean io.EOF *)
@@ -362,3 +362,40 @@ Theorem C10_forward_close_on_download_end_refuted :
     sink_up (frun_close (finit [] [] up down) (sched1 ++ sched2)) <> concat up.
 Proof. exact close_on_download_end_refuted. Qed.
 Print Assumptions C10_forward_close_on_download_end_refuted.
+
+(* ------------------------------------------------------------------------------------------------------------
+   ReadFrameFromReader itself, one call: the result (frame or error), the allocation trace and the bytes left for the next
+   call depend only on the bytes — for ALL chunk oracles (any cut lists, 1-byte reads, cuts inside the payload, carry
+   mode, any way the stream ends) *)
+Theorem C10_decode_any_chunking :
+  forall (r1 r2 : rd), rest r1 = rest r2 ->
+  fst (decode_frame MaxFrameSize r1) = fst (decode_frame MaxFrameSize r2) /\
+  rest (snd (decode_frame MaxFrameSize r1)) = rest (snd (decode_frame MaxFrameSize r2)).
+Proof. exact (decode_frame_any_chunking MaxFrameSize). Qed.
+Print Assumptions C10_decode_any_chunking.
+
+(* ------------------------------------------------------------------------------------------------------------
+   Streams created WITH a TunnelStateTracker (Model/CrossTracker.v): the tracker is an oracle — at every Read it may report
+   any set of tunnel ids as closed, the stream's own included (cls: one set per Read, then dcl for ever).  It is consulted
+   only for frames whose wire id differs from the stream's, so it never changes what is delivered: read_stream_t equals
+   read_stream, and every theorem above (transparency, end-of-stream, foreign frames) holds for tracked streams. *)
+Theorem C10_tracker_irrelevant :
+  forall tid weof caps dcap cls dcl s c,
+  read_stream_t MaxFrameSize false tid weof caps dcap cls dcl s c = read_stream MaxFrameSize tid weof caps dcap s c.
+Proof. exact (tracker_irrelevant MaxFrameSize). Qed.
+Print Assumptions C10_tracker_irrelevant.
+
+Theorem C10_tracker_state_irrelevant :
+  forall tid weof caps dcap cls dcl cls' dcl' s c,
+  read_stream_t MaxFrameSize false tid weof caps dcap cls dcl s c = read_stream_t MaxFrameSize false tid weof caps dcap cls' dcl' s c.
+Proof. exact (tracker_state_irrelevant MaxFrameSize). Qed.
+Print Assumptions C10_tracker_state_irrelevant.
+
+(* the variant that applies the closed-tunnel check BEFORE the tunnel-id filter is refuted: own tunnel "abc" reported closed
+   while its frames are still unread, and the bytes written before close are lost *)
+Theorem C10_tracker_check_before_filter_refuted :
+  exists tid ops cl,
+    data_of (fst (fst (read_stream_t 65536 true tid false [] 64 [] cl
+                         (encode_all 65536 (script_frames 65536 tid false ops)) []))) <> accepted ops.
+Proof. exact check_before_filter_refuted. Qed.
+Print Assumptions C10_tracker_check_before_filter_refuted.
